@@ -290,9 +290,9 @@ def run_case(case, ctx):
 
 
 def shard_main(ctx):
-    if not ctx.explore("oob3d", cases(ctx), run_case, ctx.n(250, 5000)):
+    if not ctx.explore("oob3d", cases(ctx), run_case, ctx.n(700, 8000)):
         return
-    ctx.explore("oob2d", cases(ctx, two_d=True), run_case, ctx.n(100, 1500))
+    ctx.explore("oob2d", cases(ctx, two_d=True), run_case, ctx.n(300, 3000))
 
 
 def replay(case, ctx):
